@@ -483,6 +483,24 @@ func getClientCall(c *core.Ctx, a *epAnchors, rule string) *clientCall {
 			cc.make = s.call
 			cc.site = s
 			cc.filter, cc.subst, _ = funcValueCtx(s.filter)
+			// a predicate helper called by the filter (sameCall(call, hdr)): its parameters
+			// stand for what the filter passes
+			if cc.filter != nil {
+				if cc.subst == nil {
+					cc.subst = map[*ssa.Parameter]ssa.Value{}
+				}
+				for _, hc := range core.Calls(cc.filter) {
+					h := core.StaticCallee(hc)
+					if h == nil || !inRepo(h) || len(h.Blocks) == 0 || h == cc.filter {
+						continue
+					}
+					for i, hp := range h.Params {
+						if _, done := cc.subst[hp]; !done && i < len(hc.Common().Args) {
+							cc.subst[hp] = hc.Common().Args[i]
+						}
+					}
+				}
+			}
 			cc.closer, cc.closerSubst, _ = funcValueCtx(s.closer)
 			cc.queue = core.Canon(s.queue)
 		}
